@@ -1,16 +1,14 @@
 (* Proofs/EffectsFacts.v — C03 *)
 From MT Require Import Types Effects.
 
-(* every primitive get_type / get_dict_type apply to a traced value is hook-free (regenerated list, checked by
-   computation: the list is finite and concrete) *)
-Lemma get_type_prims_hook_free : forallb hook_free_prim (get_type_prims ++ get_dict_type_prims) = true.
+(* every primitive that get_type (and what it walks through: get_dict_type, private helpers) applies is hook-free
+   (regenerated list, checked by computation: the list is finite and concrete) *)
+Lemma get_type_prims_hook_free : forallb hook_free_prim get_type_prims = true.
 Proof. vm_compute. reflexivity. Qed.
 
 (* function lookup: the ONLY hook-invoking primitives are the known ones (finding kf_lookup_getattr) *)
 Lemma lookup_hooking_prims_exactly :
-  filter (fun p => negb (hook_free_lookup p)) lookup_prims =
-  ["get_func_in_mro:isinstance"; "get_func_in_mro:isinstance"; "get_func_in_mro:isinstance";
-   "_has_code:getattr"; "_has_code:getattr"]%string.
+  filter (fun p => negb (hook_free_lookup p)) lookup_prims = known_hooking_sites.
 Proof. vm_compute. reflexivity. Qed.
 
 Lemma callback_contains h : (forall e, h = ORaises e -> e = EExceptionSub) -> callback h = ONormal.
